@@ -359,6 +359,19 @@ def scanLast (active : Int) (pred : Rec → Bool) : List Rec → Nat → Int →
     let cur' := if r.name == "PROBLEM" then cur + 1 else cur
     scanLast active pred rs (i + 1) cur' (if cur' == active && pred r then some i else acc)
 
+/-- `get_records(name, problem_no)`: `current_problem` starts at −1 and is incremented *at* each
+    `$PROBLEM` record, so records before the first `$PROBLEM` (e.g. `$SIZES`) belong to problem −1
+    and are never returned for `problem_no ≥ 0`. -/
+def getRecordsGo (name : String) (problemNo : Int) : List Rec → Int → List Rec
+  | [], _ => []
+  | r :: rs, cur =>
+    let cur' := if r.name == "PROBLEM" then cur + 1 else cur
+    if cur' == problemNo && r.name == name then r :: getRecordsGo name problemNo rs cur'
+    else getRecordsGo name problemNo rs cur'
+
+def getRecords (recs : List Rec) (name : String) (problemNo : Int := 0) : List Rec :=
+  getRecordsGo name problemNo recs (-1)
+
 def insertAt (recs : List Rec) (k : Nat) (r : Rec) : List Rec := recs.take k ++ r :: recs.drop k
 
 def insertRecord (recs : List Rec) (r : Rec) (atIndex : Option Nat) (active : Int := 0) : List Rec :=
